@@ -33,6 +33,7 @@ ap.add_argument("--configs", default="avx2,purego")
 ap.add_argument("--variants", default="")
 ap.add_argument("--tier", default="quick")
 ap.add_argument("--jobs", type=int, default=0)
+ap.add_argument("--redo", action="store_true", help="run the recorded survivors / tests-only mutants of this property again (after a strengthening)")
 ap.add_argument("--asm", action="store_true", help="mutate the amd64 assembly files (.s) instead of the Go files: immediates +-1, displacements +8, "
                 "flipped jump conditions, deleted instructions; every dispatch configuration of the asm variant is run")
 a = ap.parse_args()
@@ -159,6 +160,13 @@ if os.path.exists(outpath):
         except ValueError:
             pass
 todo = [s for s in picked if (s["file"], s["id"]) not in done]
+if a.redo:
+    last = {}
+    for line in open(outpath):
+        r = json.loads(line)
+        last[(r["file"], r["id"])] = r
+    want = {k for k, r in last.items() if r["result"] in ("survivor", "tests-only")}
+    todo = [s for s in sites if (s["file"], s["id"]) in want]
 print("%s: %d sites in %d files, %d picked, %d to do" % (prop, len(sites), len(files), len(picked), len(todo)), flush=True)
 lock = threading.Lock()
 it = iter(todo)
@@ -228,6 +236,14 @@ def worker(k):
                 rc, out = sh("./check %s %s" % (prop, a.tier), cwd=ROOT, env=e2, timeout=3000)
                 lines = out.splitlines()
                 idx = [i for i, l in enumerate(lines) if l.startswith("VIOLATION")]
+                res["stage"] = "restricted"
+                if not idx and not (any(l.startswith("BUILD FAILED") for l in lines) or "does not build" in out):
+                    # second stage: every variant and configuration of the plan (the code may belong to one dispatch tier only)
+                    e2.pop("VERIF_ONLY_VARIANTS"); e2.pop("VERIF_ONLY_CONFIGS")
+                    rc, out = sh("./check %s %s" % (prop, a.tier), cwd=ROOT, env=e2, timeout=3000)
+                    lines = out.splitlines()
+                    idx = [i for i, l in enumerate(lines) if l.startswith("VIOLATION")]
+                    res["stage"] = "full"
                 res["check_rc"] = rc
                 res["violations"] = len(idx)
                 if idx:
